@@ -170,6 +170,24 @@ SEEDS = {
               ['./share/availability/...'], ['-run', 'TestDemoC03Change1', './share/availability/light/']),
     "C02-5": ("C02/r3change1", "C02", [('demo/namespace_data_extra_rows_demo_test.go', 'share/shwap/namespace_data_extra_rows_demo_test.go')],
               ['./share/shwap/', './share/eds/'], ['-run', 'TestDemoNamespaceDataRejectsExtraRows', './share/shwap/']),
+    "C04-5": ("C04/r3change1", "C04", [('demo/seed_c04_change1_test.go', 'das/seed_c04_change1_test.go')],
+              ['./das/'], ['-run', 'TestSeedC04Change1', './das/']),
+    "C07-5": ("C07/r3change1", "C07", [('demo/crash_q4_first_test.go', 'store/crash_q4_first_test.go')],
+              ['./store/...'], ['-run', 'TestCrashWhileQ4WriterRunsAheadOfODS', './store/']),
+    "C01-5": ("C01/r3change1", "C01", [('demo/range_reslice_demo_test.go', 'share/shwap/range_reslice_demo_test.go')],
+              ['./share/shwap/', './share/eds/'], ['-run', 'TestDemoRangeReslicedAcrossRows', './share/shwap/']),
+    "C09-4": ("C09/r3change1", "C09", [('demo/c09_change1_eds_from_disk_test.go', 'share/shwap/p2p/shrex/c09_change1_eds_from_disk_test.go')],
+              ['./share/shwap/p2p/shrex/'], ['-run', 'TestC09Change1', './share/shwap/p2p/shrex/']),
+    "C16-5": ("C16/r3change1", "C16", [('demo/verify_forged_sigs_test.go', 'header/headertest/verify_forged_sigs_test.go')],
+              ['./header/...'], ['-run', 'TestVerifyNonAdjacent', './header/headertest/']),
+    "C16-6": ("C16/r3change2", "C16", [('demo/serde_valset_substitution_test.go', 'header/headertest/serde_valset_substitution_test.go')],
+              ['./header/...'], ['-run', 'TestReencode', './header/headertest/']),
+    "C19-5": ("C19/r3change2", "C19", [('demo/zz_c19_legacy_token_expiry_test.go', 'api/rpc/zz_c19_legacy_token_expiry_test.go')],
+              ['./api/rpc/', './api/'], ['-run', 'TestC19_IssuedTokenWithElapsedTTLGrantsNothing', './api/rpc/']),
+    "C18-4": ("C18/r3change1", "C18", [('demo/zz_c18_idbuf_demo_test.go', 'share/shwap/zz_c18_idbuf_demo_test.go')],
+              ['./share/shwap/'], ['-run', 'TestC18Decoded', './share/shwap/']),
+    "C18-5": ("C18/r3change2", "C18", [('demo/zz_c18_stream_eof_demo_test.go', 'share/shwap/zz_c18_stream_eof_demo_test.go')],
+              ['./share/shwap/'], ['-run', 'TestC18.*Stream', './share/shwap/']),
     "C06-1": ("C06/change1", "C06", [("demo/sample_unverified_demo_test.go", "share/shwap/p2p/bitswap/sample_unverified_demo_test.go")],
               ["./share/shwap/p2p/bitswap/"], ["-run", "TestDemo_GetSamples", "./share/shwap/p2p/bitswap/"]),
     "C06-2": ("C06/change2", "C06", [("demo/eds_retry_demo_test.go", "share/shwap/p2p/shrex/shrex_getter/eds_retry_demo_test.go")],
